@@ -17,7 +17,7 @@ MANIFEST = {
              'C06_binop_value_where_both, C06_binop_missing_elsewhere, C06_binop_permutation_invariant -- Series op Series carries the union of the labels, holds '
              'op(a,b) / the missing marker per label, is invariant under re-ordering either operand, keeps the left order for equal indices; '
              'C06_resize_blocks_layout_independent and C06_frame_reindex_every_layout_is_label_lookup -- TypeBlocks.resize_blocks / Frame.reindex over EVERY block '
-             'layout equal the (row label, column label) lookup on the flattened columns, on an explicit Boolean domain; C06_models_use_source_constants -- the '
+             'layout equal the (row label, column label) lookup on the flattened columns (unconditionally since fix 658b4ce); C06_models_use_source_constants -- the '
              'keyword constants regenerated from the source (check_equals, union, fill_value, assume_unique) are the ones the models use. Refuted/C06.v: one computed '
              'witness per known finding. Correspondence (model evaluated by vm_compute inside Coq on the inputs the implementation ran on): Index / IndexHierarchy '
              'set operations (exhaustive over all pairs of repetition-free sequences of <= 3/4 labels, int/str/mixed-object labels, every operand kind), util kernels '
@@ -31,7 +31,8 @@ MANIFEST = {
              'not predicted (such results are compared as label->value maps). Partial: TypeBlocks._ufunc_binary_operator (block_compatible / reblock / values paths) is '
              'modelled and covered by correspondence over all layout pairs but has no refinement theorem; the Frame theorems cover the alignment (re-indexing) step, the '
              'operator application on aligned frames is observed; dtype of results is observed only through the value classes (int / float / bool); operators pow, '
-             'shifts, matmul, string cells, datetime cells and NaN labels are outside the generators. Five findings are listed in known/C06.jsonl.'),
+             'shifts, matmul, string cells, datetime cells and NaN labels are outside the generators. Four open findings are listed in known/C06.jsonl; a fifth '
+             '(resize_blocks, both axes, one axis without common labels) was repaired upstream of this check by fix 658b4ce and is kept as a regression class.'),
     'technique': 'refinement proof (decision-procedure / block-walking model = set algebra / label lookup) + differential correspondence evaluated inside Coq',
 }
 PROPERTY_FILES = ['Properties/C06.v']
@@ -749,7 +750,7 @@ def series_scalar_array(ctx):
 
 
 # ----------------------------------------------------------------------------- frames
-F_RESIZE = 'C06-resize-both-axes-one-sided-no-common'
+R_RESIZE = 'resize-both-axes-one-sided-no-common'   # fixed by 658b4ce
 F_VALUES = 'C06-values-path-coerces-columns'
 F_NOCOL = 'C06-zero-column-result-raises'
 
@@ -889,8 +890,8 @@ def frame_pair_cases(ctx, fa, fb, dta, dtb, opname, stratum):
     unmatched = set(ia) != set(ib) or set(ca) != set(cb)
     tags = {'op': opname, 'opkind': okind, 'container': 'frame', 'unmatched': unmatched}
     if resize_bug_class(ia, ca, ui, uc) or resize_bug_class(ib, cb, ui, uc):
-        tags['finding'] = F_RESIZE
-    elif not ca and not cb:
+        tags['regression'] = R_RESIZE          # repaired by fix 658b4ce; kept as a labelled regression class
+    if not ca and not cb:
         tags['finding'] = F_NOCOL
     elif values_path_class(fa, fb, dta, dtb) and okind == 'arith' and opname not in ('truediv', 'rtruediv'):
         tags['finding'] = F_VALUES
@@ -904,12 +905,7 @@ def frame_pair_cases(ctx, fa, fb, dta, dtb, opname, stratum):
     args = f'{opcoq} {lit.b(swap)} {fin_lit(fa)} {fin_lit(fb)} {obs}'
     desc = {'call': f'A.{dunder}(B)', 'A': frame_desc(fa), 'B': frame_desc(fb), 'observed': odesc}
     nontrivial = fa.shape[0] > 0 and fa.shape[1] > 0 and fb.shape[0] > 0 and fb.shape[1] > 0
-    m = f'MFF {args}'
-    if tags.get('finding') == F_RESIZE and (ui is None or uc is None):
-        # whether the defective branch is entered depends on the hash order of an unsortable union (the operand is
-        # re-indexed unless the union happens to come out in its own order): outside what the model predicts
-        m = None
-    yield Case(stratum, desc, m=m, s=f'SFF {args}', tags=tags, nontrivial=nontrivial)
+    yield Case(stratum, desc, m=f'MFF {args}', s=f'SFF {args}', tags=tags, nontrivial=nontrivial)
     if tags.get('finding') == F_CMP:
         t2 = {k: v for k, v in tags.items() if k != 'finding'}
         yield Case(stratum + ':matched-part', dict(desc, part='labels + matched cells only'), s=f'SFFm {args}', tags=t2,
@@ -1073,7 +1069,7 @@ def frame_reindex_cases(ctx):
         obs, odesc = frame_obs(lambda: fa.reindex(**kw))
         tags = {'container': 'frame', 'call': 'reindex', 'axes': which}
         if ni is not None and nc is not None and resize_bug_class(ia, ca, ni, nc):
-            tags['finding'] = F_RESIZE
+            tags['regression'] = R_RESIZE
         ctx.count(f'reindex:{which}', f'reindex:layout:{zoo.layout_str(zoo.layout_of(fa))}')
         oi = 'None' if ni is None else f'(Some {lit.vlist(ni)})'
         oc = 'None' if nc is None else f'(Some {lit.vlist(nc)})'
@@ -1092,7 +1088,7 @@ def witnesses(ctx):
     b = sf.Series(np.array([1, 2]), index=('b', 'c'))
     yield from series_pair_cases(ctx, a, b, 'eq', 'str', 'witness:series-op-series')
     yield from series_pair_cases(ctx, a, b, 'and', 'str', 'witness:series-op-series')
-    # zero-row operand whose columns overlap the other's: both axes re-indexed, no common row label
+    # regression (fix 658b4ce): zero-row operand whose columns overlap the other's -- both axes re-indexed, no common row label
     f0 = zoo.frame_from_columns([np.array([], dtype=np.int64)] * 2, ((2, True),), index=make_index((), 'str'), columns=make_index(('a', 'b'), 'str'))
     f2 = zoo.frame_from_columns([np.array([10, 40]), np.array([20, 50])], ((2, True),), index=make_index(('p', 'q'), 'str'), columns=make_index(('b', 'c'), 'str'))
     yield from frame_pair_cases(ctx, f0, f2, ['int', 'int'], ['int', 'int'], 'add', 'witness:frame-op-frame')
